@@ -20,6 +20,7 @@ import (
 	"github.com/pdfcpu/pdfcpu/pkg/api"
 	"github.com/pdfcpu/pdfcpu/pkg/cli"
 	"github.com/pdfcpu/pdfcpu/pkg/pdfcpu/model"
+	"github.com/pdfcpu/pdfcpu/pkg/pdfcpu/types"
 	"verif/harness/lib/h"
 	"verif/harness/lib/rawpdf"
 )
@@ -95,7 +96,9 @@ type case35 struct {
 	Base  string          `json:"base"`
 	Info  bool            `json:"info"`
 	XMP   bool            `json:"xmp"`
-	KwInf bool            `json:"kwinfo"` // the keywords are (also) in the Info dictionary
+	Std   bool            `json:"std"` // standard Info entries used as property names
+	IKw   []string        `json:"ikw"` // keywords recorded in the Info dictionary
+	XKw   []string        `json:"xkw"` // keywords recorded in the XMP metadata (pdf:Keywords)
 	Init  json.RawMessage `json:"init"`
 	Steps []step35        `json:"steps"`
 }
@@ -280,27 +283,123 @@ func (r *runner35) put(k string, e *entry35) {
 	}
 }
 
+// vpKind classifies a viewer preference of the spec (Doc35!VPDomain).
+func vpKind(k string) string {
+	switch k {
+	case "HideToolbar", "HideMenubar", "HideWindowUI", "FitWindow", "CenterWindow", "DisplayDocTitle", "PickTrayByPDFSize":
+		return "bool"
+	case "NonFullScreenPageMode", "Direction", "ViewArea", "ViewClip", "PrintArea", "PrintClip", "PrintScaling", "Duplex":
+		return "name"
+	case "NumCopies":
+		return "int"
+	case "PrintPageRange":
+		return "ranges"
+	}
+	h.Die("unknown viewer preference %q", k)
+	return ""
+}
+
+// rangeInts turns "1-2,4-6" into 1 2 4 6.
+func rangeInts(v string) []int {
+	var out []int
+	for _, r := range strings.Split(v, ",") {
+		for _, x := range strings.Split(r, "-") {
+			n, err := strconv.Atoi(x)
+			if err != nil {
+				h.Die("page range %q: %v", v, err)
+			}
+			out = append(out, n)
+		}
+	}
+	return out
+}
+
+// vpFrom builds the struct the way an API user does (route "struct").
 func vpFrom(keys, vals []string) model.ViewerPreferences {
 	vp := model.ViewerPreferences{}
+	must := func(ok bool, k, v string) {
+		if !ok {
+			h.Die("viewer preference %s: value %q not known to the model package", k, v)
+		}
+	}
 	for i, k := range keys {
 		v := vals[i]
+		b := v == "true"
 		switch k {
 		case "HideToolbar":
-			vp.SetHideToolBar(v == "true")
+			vp.SetHideToolBar(b)
+		case "HideMenubar":
+			vp.SetHideMenuBar(b)
+		case "HideWindowUI":
+			vp.SetHideWindowUI(b)
 		case "FitWindow":
-			vp.SetFitWindow(v == "true")
+			vp.SetFitWindow(b)
+		case "CenterWindow":
+			vp.SetCenterWindow(b)
+		case "DisplayDocTitle":
+			vp.SetDisplayDocTitle(b)
+		case "PickTrayByPDFSize":
+			vp.SetPickTrayByPDFSize(b)
+		case "NonFullScreenPageMode":
+			pm := model.PageModeFor(v)
+			must(pm != nil, k, v)
+			vp.NonFullScreenPageMode = (*model.NonFullScreenPageMode)(pm)
 		case "Direction":
 			vp.Direction = model.DirectionFor(v)
+			must(vp.Direction != nil, k, v)
+		case "ViewArea":
+			vp.ViewArea = model.PageBoundaryFor(v)
+			must(vp.ViewArea != nil, k, v)
+		case "ViewClip":
+			vp.ViewClip = model.PageBoundaryFor(v)
+			must(vp.ViewClip != nil, k, v)
+		case "PrintArea":
+			vp.PrintArea = model.PageBoundaryFor(v)
+			must(vp.PrintArea != nil, k, v)
+		case "PrintClip":
+			vp.PrintClip = model.PageBoundaryFor(v)
+			must(vp.PrintClip != nil, k, v)
+		case "PrintScaling":
+			vp.PrintScaling = model.PrintScalingFor(v)
+			must(vp.PrintScaling != nil, k, v)
+		case "Duplex":
+			vp.Duplex = model.PaperHandlingFor(v)
+			must(vp.Duplex != nil, k, v)
 		case "NumCopies":
 			n, _ := strconv.Atoi(v)
 			vp.SetNumCopies(n)
-		case "PrintScaling":
-			vp.PrintScaling = model.PrintScalingFor(v)
+		case "PrintPageRange":
+			vp.PrintPageRange = types.NewIntegerArray(rangeInts(v)...)
 		default:
 			h.Die("unknown viewer preference %q", k)
 		}
 	}
 	return vp
+}
+
+// vpJSON renders the same request as the JSON document of the CLI route.
+func vpJSON(keys, vals []string) []byte {
+	m := map[string]any{}
+	for i, k := range keys {
+		jk := strings.ToLower(k[:1]) + k[1:]
+		v := vals[i]
+		switch vpKind(k) {
+		case "bool":
+			m[jk] = v == "true"
+		case "name":
+			m[jk] = v
+		case "int":
+			n, _ := strconv.Atoi(v)
+			m[jk] = n
+		case "ranges":
+			m[jk] = rangeInts(v)
+		}
+	}
+	b, err := json.Marshal(m)
+	if err != nil {
+		h.Die("%v", err)
+	}
+	return b
 }
 
 func nilIfEmpty(ss []string) []string {
@@ -343,6 +442,8 @@ func (r *runner35) apply(s step35, in, out string, e *entry35) error {
 		return api.ResetPageModeFile(in, out, nil)
 	case "vp_set":
 		return api.SetViewerPreferencesFile(in, out, vpFrom(s.Keys, s.Vals), nil)
+	case "vp_setjson":
+		return api.SetViewerPreferencesFileFromJSONBytes(in, out, vpJSON(s.Keys, s.Vals), nil)
 	case "vp_reset":
 		return api.ResetViewerPreferencesFile(in, out, nil)
 	case "att_add":
@@ -408,7 +509,7 @@ func (r *runner35) safeApply(s step35, in, out string, e *entry35) (err error, p
 
 func (r *runner35) report(c case35, upto int, key, msg string, got string) {
 	r.stats["mismatches"]++
-	cc := case35{Base: c.Base, Info: c.Info, XMP: c.XMP, KwInf: c.KwInf, Init: c.Init, Steps: append([]step35{}, c.Steps[:upto]...)}
+	cc := case35{Base: c.Base, Info: c.Info, XMP: c.XMP, Std: c.Std, IKw: c.IKw, XKw: c.XKw, Init: c.Init, Steps: append([]step35{}, c.Steps[:upto]...)}
 	for i := range cc.Steps {
 		if i < upto-1 {
 			cc.Steps[i].Exp = nil
@@ -486,14 +587,15 @@ func baseDoc(c case35) []byte {
 	}
 	d.Set(pages, fmt.Sprintf("<< /Type /Pages /Count %d /Kids [%s] /MediaBox [0 0 595 842] >>", len(kids), strings.Join(kids, " ")))
 	cat := fmt.Sprintf("<< /Type /Catalog /Pages %d 0 R", pages)
-	kws := strings.Join(sorted(l.Kw), "; ")
-	if !c.Info && (len(l.Kw) > 0 || len(l.Props) > 0) {
+	unescAll(c.IKw)
+	unescAll(c.XKw)
+	if !c.Info && (len(c.IKw) > 0 || len(l.Props) > 0) || !c.XMP && len(c.XKw) > 0 {
 		h.Die("base %q: keywords/properties need an Info dictionary", c.Base)
 	}
 	if c.Info {
 		info := "<< /Producer (verif raw emitter) /CreationDate (D:20200102030405Z) /Title (Base title) /Author (A. Uthor)"
-		if len(l.Kw) > 0 && c.KwInf {
-			info += " /Keywords " + pdfText(kws)
+		if len(c.IKw) > 0 {
+			info += " /Keywords " + pdfText(strings.Join(sorted(c.IKw), "; "))
 		}
 		for _, p := range l.Props {
 			info += " " + pdfName(p.K) + " " + pdfText(p.V)
@@ -505,11 +607,11 @@ func baseDoc(c case35) []byte {
 			`<x:xmpmeta xmlns:x="adobe:ns:meta/"><rdf:RDF xmlns:rdf="http://www.w3.org/1999/02/22-rdf-syntax-ns#">` +
 			`<rdf:Description rdf:about="" xmlns:pdf="http://ns.adobe.com/pdf/1.3/" xmlns:dc="http://purl.org/dc/elements/1.1/" xmlns:xmp="http://ns.adobe.com/xap/1.0/">` + "\n" +
 			`<pdf:Producer>verif raw emitter</pdf:Producer>` + "\n" +
-			`<pdf:Keywords>` + xmlEsc(kws) + `</pdf:Keywords>` + "\n" +
+			`<pdf:Keywords>` + xmlEsc(strings.Join(sorted(c.XKw), "; ")) + `</pdf:Keywords>` + "\n" +
 			`<xmp:CreateDate>2020-01-02T03:04:05Z</xmp:CreateDate>` + "\n" +
 			`<dc:title><rdf:Alt><rdf:li xml:lang="x-default">Base title</rdf:li></rdf:Alt></dc:title>` + "\n" +
 			`<dc:subject><rdf:Bag>`
-		for _, k := range sorted(l.Kw) {
+		for _, k := range sorted(c.XKw) {
 			x += `<rdf:li>` + xmlEsc(k) + `</rdf:li>`
 		}
 		x += `</rdf:Bag></dc:subject>` + "\n" + `</rdf:Description></rdf:RDF></x:xmpmeta>` + "\n" + `<?xpacket end="w"?>`
@@ -524,15 +626,17 @@ func baseDoc(c case35) []byte {
 	if len(l.VP) > 0 {
 		cat += " /ViewerPreferences <<"
 		for _, p := range l.VP {
-			switch p.K {
-			case "HideToolbar", "FitWindow":
+			switch vpKind(p.K) {
+			case "bool", "int":
 				cat += fmt.Sprintf(" /%s %s", p.K, p.V)
-			case "Direction", "PrintScaling":
+			case "name":
 				cat += fmt.Sprintf(" /%s /%s", p.K, p.V)
-			case "NumCopies":
-				cat += fmt.Sprintf(" /%s %s", p.K, p.V)
-			default:
-				h.Die("unknown viewer preference %q", p.K)
+			case "ranges":
+				cat += fmt.Sprintf(" /%s [", p.K)
+				for _, n := range rangeInts(p.V) {
+					cat += fmt.Sprintf(" %d", n)
+				}
+				cat += " ]"
 			}
 		}
 		cat += " >>"
